@@ -20,6 +20,9 @@ type Universe struct {
 	dvAll  bool            // every instance of a dv-capable field asks for doc values (DVConsistent)
 	terms  [][]byte
 	exact  bool // Length = Σ freq (C16/C17 contract)
+	wide   bool // more than 128 fields
+	// frequencies beyond 32 bits (and no locations at all)
+	hugeFreq bool
 }
 
 func has0xff(b []byte) bool {
@@ -47,6 +50,14 @@ func genUniverse(r *Rng) *Universe {
 		}
 		u.fields = append(u.fields, fieldPool[i])
 	}
+	if r.Chance(1, 14) {
+		// wide universe: field ids beyond one varint byte (128) and beyond one byte (256)
+		u.wide = true
+		n := []int{126, 131, 200, 259, 300}[r.Intn(5)]
+		for i := 0; i < n; i++ {
+			u.fields = append(u.fields, []byte(fmt.Sprintf("w%03d", i)))
+		}
+	}
 	for _, f := range u.fields {
 		if r.Chance(1, 2) {
 			u.dvOK[string(f)] = true
@@ -65,6 +76,16 @@ func genUniverse(r *Rng) *Universe {
 		t := make([]byte, n)
 		for i := range t {
 			t[i] = byte(r.Intn(256))
+		}
+		u.terms = append(u.terms, t)
+	}
+	u.hugeFreq = r.Chance(1, 12)
+	if r.Chance(1, 9) {
+		// a long term: its length (and the doc-value bytes of its documents) need a two-byte varint
+		n := []int{127, 128, 130, 300}[r.Intn(4)]
+		t := make([]byte, n)
+		for i := range t {
+			t[i] = byte('a' + r.Intn(20))
 		}
 		u.terms = append(u.terms, t)
 	}
@@ -96,9 +117,14 @@ func (u *Universe) termFor(r *Rng, field []byte) []byte {
 
 var varintEdges = []int{127, 128, 129, 255, 256, 16383, 16384, 16385, 2097151, 2097152}
 
+var wideEdges = []int{1<<31 - 1, 1 << 31, 1<<32 - 1, 1 << 32, 1<<32 + 7, 1<<35 + 3, 1<<53 + 1}
+
 func smallOrBig(r *Rng) int {
 	if r.Chance(1, 7) {
 		return varintEdges[r.Intn(len(varintEdges))] // values at which a varint grows by a byte
+	}
+	if r.Chance(1, 40) {
+		return wideEdges[r.Intn(len(wideEdges))] // values that do not survive a 32-bit (or float64) detour
 	}
 	switch r.Intn(10) {
 	case 0:
@@ -144,6 +170,9 @@ func (u *Universe) genDoc(r *Rng, o docOpts) Doc {
 			case 1:
 				if o.bigValue {
 					f.Value = randBytes(r, r.Range(20, 90))
+				} else if r.Chance(1, 6) {
+					// value lengths at which the length varint grows
+					f.Value = randBytes(r, []int{127, 128, 129, 300, 16384, 17000}[r.Intn(6)])
 				} else {
 					f.Value = randBytes(r, r.Range(7, 12))
 				}
@@ -159,8 +188,11 @@ func (u *Universe) genDoc(r *Rng, o docOpts) Doc {
 		for j := 0; j < nt; j++ {
 			t := TermOcc{Term: u.termFor(r, name)}
 			nl := 0
-			if r.Chance(1, 2) {
+			if r.Chance(1, 2) && !u.hugeFreq {
 				nl = r.Range(1, 3)
+				if r.Chance(1, 60) {
+					nl = []int{32, 43, 127, 128, 140}[r.Intn(5)] // location counts / byte counts past one varint byte
+				}
 			}
 			for k := 0; k < nl; k++ {
 				l := Loc{Pos: smallOrBig(r), Start: smallOrBig(r), End: smallOrBig(r)}
@@ -175,6 +207,10 @@ func (u *Universe) genDoc(r *Rng, o docOpts) Doc {
 			}
 			if r.Chance(1, 25) {
 				t.Freq += r.Range(100, 100000)
+			} else if u.hugeFreq && r.Chance(1, 6) {
+				// (only in universes without locations: the iterator allocates one Location per
+				// unit of frequency when the posting has locations - memory use is outside the properties)
+				t.Freq += []int{1<<31 - 1, 1 << 31, 1 << 32, 1<<33 + 1}[r.Intn(4)]
 			}
 			sum += t.Freq
 			f.Terms = append(f.Terms, t)
